@@ -240,7 +240,7 @@ fn init(
     class_args: &[Core],
     parents: &[Core],
 ) -> GenResult<Option<Core>> {
-    let (parent_inits, parent_args): (Vec<Core>, Vec<Vec<Core>>) = parents
+    let (parent_inits, _): (Vec<Core>, Vec<Vec<Core>>) = parents
         .iter()
         .map(|parent| {
             let (lit, mut arg) = match parent {
@@ -289,18 +289,13 @@ fn init(
         (Vec::from(class_args), parent_inits)
     };
 
-    // Assignments from class args not given to parent
+    // Assignments from class args: also when given to a parent, they are fields of this class
     statements.append(
         &mut class_args
             .iter()
             .flat_map(|arg| match arg {
                 Core::FunArg { var, .. } => Some(var.deref().clone()),
                 _ => None,
-            })
-            .filter(|arg| {
-                !parent_args
-                    .iter()
-                    .any(|p_args| p_args.iter().any(|p_arg| p_arg == arg))
             })
             .map(|var| Core::Assign {
                 left: Box::from(Core::PropertyCall {
